@@ -1031,6 +1031,9 @@ def mutations(spec, A, items, ch):
 
     # 3. an unknown option at a unit boundary before `--`
     unk = ["--nope", "--nope=1", "-Z", "-Zx"]
+    # a known name behind more than two dashes names no option ('---verbose' is the long option '-verbose')
+    for o in spec["opts"][:2]:
+        unk += ["---" + o["long"], "----%s=1" % o["long"]] + (["---" + o["short"]] if o["short"] else [])
     at = ch.pick(dd_at + 1)
     tok = unk[ch.pick(len(unk))]
     its = list(items)
